@@ -100,6 +100,29 @@
 //!               abandoned transactions (expiry + take-over races); there a shadow overlap only
 //!               counts if the harness' own clock readings prove the earlier holder unexpired.
 //!               Runnable alone with `--part threads` (TSan leg).
+//!  takeover-threads: the dimension the two threaded parts above lack: locks whose lease ran out are
+//!               taken over WHILE the expiry sweeps and the late completions of their old owners run.
+//!               Every round restores a lock table as a restarted node loads it (directly or through
+//!               bitcode): 8-96 (thorough: up to 256) keys, most of them locked by 1-7 transactions
+//!               from before a downtime whose leases ran out 100 leases ago, some by old transactions
+//!               with a fresh 1 h lease, some free; new grants get 1 h leases and a round takes well
+//!               under a second, so no expiry status is ever ambiguous (a round older than 300 s is
+//!               not judged). 1-4 taker threads walk the keys (each request of 1-3 keys is one new
+//!               transaction; try_lock / try_lock_with_wait_tracking), keep what they are granted or
+//!               complete it later (release / release_by_handle[_with_wait_cleanup]); 1-2 maintenance
+//!               threads begin somewhere inside the walks (they watch a progress counter: scheduling
+//!               only) and run cleanup_expired / cleanup_expired_with_wait_cleanup, the late completion
+//!               of the old transactions (release(tx), release_by_handle[_with_wait_cleanup] of their
+//!               old handles), to_serializable and detect_cycles. Oracle: (a) shadow owner mark per key
+//!               (set after a grant returned - planted live locks from the start -, cleared before
+//!               the owner's release call): a grant on a key marked by another transaction is a grant
+//!               over a held key; (b) a transaction that has not released still holds every key it was
+//!               granted - read right after the grant, before its own completion and for every key at
+//!               quiescence (lock_holder, keys_for_transaction); a key nobody holds is reported as
+//!               held by nobody; (c) a refusal names neither the requester nor a transaction all of
+//!               whose leases ran out, and grants nothing; (d) after its completion a transaction
+//!               holds nothing, and when all completed / were swept the lock table is empty and no
+//!               transaction is indexed. Runnable alone (`--part takeover-threads`).
 //!  witness    : (`--part witness` only) the minimal programs behind the findings of this check.
 //!
 //! Violations of a class the reference model can account for exactly (a stale reverse-index entry
@@ -121,7 +144,7 @@ use tensor_chain::block::Transaction;
 use tensor_chain::consensus::ConsensusManager;
 use tensor_chain::deadlock::{DeadlockDetector, DeadlockDetectorConfig, VictimSelectionPolicy, WaitForGraph};
 use tensor_chain::distributed_tx::{
-    CoordinatorState, DistributedTxConfig, DistributedTxCoordinator, LockManager, PrepareRequest, PrepareVote,
+    CoordinatorState, DistributedTxConfig, DistributedTxCoordinator, KeyLock, LockManager, PrepareRequest, PrepareVote,
     SerializableLockState, TxParticipant, TxPhase,
 };
 use tensor_store::SparseVector;
@@ -3153,6 +3176,535 @@ fn coord_threads_case(case_seed: u64, r: &mut Report) -> bool {
 }
 
 // ------------------------------------------------------------------------------------------------
+// takeover-threads: preparers take over locks whose lease ran out WHILE the expiry sweeps and the
+// late completions of the old transactions run (no clock ambiguity: old leases ran out 100 leases
+// ago or were granted 1 h leases just now; every new grant has a 1 h lease, rounds take < 1 ms)
+// ------------------------------------------------------------------------------------------------
+
+/// a round older than this is not judged (1 h leases: a margin of 12)
+const TK_FRESH: Duration = Duration::from_secs(300);
+const TK_LEASE_MS: u64 = 3_600_000;
+
+struct TkShared {
+    lm: LockManager,
+    graph: WaitForGraph,
+    /// shadow owner per key. Written after a grant returned, cleared before the release call;
+    /// planted live locks are marked from the start.
+    shadow: Vec<Mutex<Option<u64>>>,
+    /// requests answered so far / takers that finished their walk (scheduling of the maintenance
+    /// threads and evidence only - never part of a verdict)
+    progress: AtomicU64,
+    takers_done: AtomicU64,
+    ntakers: u64,
+    approx_requests: u64,
+    stop: AtomicBool,
+    fails: Mutex<Vec<Fail>>,
+    /// old transactions all of whose leases ran out long ago
+    dead: BTreeSet<u64>,
+    /// old transactions still to be completed late by a maintenance thread: (tx, its handles, its keys, live?)
+    old_pool: Mutex<Vec<(u64, Vec<u64>, Vec<usize>, bool)>>,
+}
+impl TkShared {
+    fn bad(&self, sig: &str, detail: String) {
+        self.stop.store(true, Ordering::SeqCst);
+        self.fails.lock().push(Fail { sig: sig.to_string(), detail });
+    }
+    fn unmark(&self, tx: u64, keys: &[usize]) {
+        for &k in keys {
+            let mut s = self.shadow[k].lock();
+            if *s == Some(tx) {
+                *s = None;
+            }
+        }
+    }
+}
+
+/// a granted, not yet finished transaction of a taker: (tx, handle, keys, used wait tracking)
+type TkHeld = (u64, u64, Vec<usize>, bool);
+
+/// ends a transaction the way the repo ends one and checks that nothing of it remains
+fn tk_finish(sh: &TkShared, t: &TkHeld, how: usize, log: &mut ThreadLog) {
+    let (tx, h, keys, tracked) = (t.0, t.1, &t.2, t.3);
+    // nobody but this thread ends tx and its lease is 1 h: it still holds what it was granted
+    for &k in keys {
+        let hol = sh.lm.lock_holder(&kname(k));
+        log.c("takeover_holder_reads_checked");
+        if hol != Some(tx) {
+            sh.bad(
+                "takeover:granted-key-not-held-by-grantee",
+                format!("tx {} was granted {} (handle {}, 1 h lease) and has not released it, but before its completion lock_holder({}) = {:?}", tx, kname(k), h, kname(k), hol),
+            );
+        }
+    }
+    sh.unmark(tx, keys);
+    match how % 3 {
+        0 => sh.lm.release(tx),
+        1 => sh.lm.release_by_handle(h),
+        _ => sh.lm.release_by_handle_with_wait_cleanup(h, &sh.graph),
+    }
+    if tracked {
+        sh.graph.remove_transaction(tx);
+    }
+    log.c("takeover_completions");
+    for &k in keys {
+        if sh.lm.lock_holder(&kname(k)) == Some(tx) {
+            sh.bad("takeover:lock-held-after-release", format!("tx {} released everything (way {}) but lock_holder({}) still names it", tx, how % 3, kname(k)));
+        }
+    }
+    let kft = sh.lm.keys_for_transaction(tx);
+    if !kft.is_empty() {
+        sh.bad("takeover:keys_for_transaction-nonempty-after-release", format!("tx {} released everything (way {}) but keys_for_transaction = {:?}", tx, how % 3, kft));
+    }
+}
+
+#[allow(clippy::too_many_arguments)]
+fn tk_taker(sh: &TkShared, th: usize, seed: u64, round: usize, nkeys: usize, p_release: u32, mode: u8, log: &mut ThreadLog) -> (Vec<TkHeld>, Vec<(usize, u8)>) {
+    let mut rng = Rng::new(seed);
+    let mut order: Vec<usize> = (0..nkeys).collect();
+    match rng.below(4) {
+        0 => rng.shuffle(&mut order),
+        1 => {
+            order.reverse();
+            order.rotate_left((th * nkeys / sh.ntakers.max(1) as usize) % nkeys);
+        }
+        _ => order.rotate_left((th * nkeys / sh.ntakers.max(1) as usize) % nkeys),
+    }
+    let mut backlog: Vec<TkHeld> = Vec::new();
+    let mut won: Vec<(usize, u8)> = Vec::new();
+    let (mut i, mut n) = (0usize, 0u64);
+    while i < order.len() && !sh.stop.load(Ordering::Relaxed) {
+        let nk = [1usize, 1, 1, 2, 3][rng.below(5)].min(order.len() - i);
+        let keys: Vec<usize> = order[i..i + nk].to_vec();
+        i += nk;
+        n += 1;
+        // one transaction per request (a shard's PREPARE); ids are never reused
+        let tx = ((round as u64 + 1) << 32) | ((th as u64 + 1) << 24) | n;
+        let tracked = match mode {
+            0 => false,
+            1 => true,
+            _ => rng.bool(),
+        };
+        let names: Vec<String> = keys.iter().map(|&k| kname(k)).collect();
+        let res: Result<u64, u64> = if tracked {
+            sh.lm.try_lock_with_wait_tracking(tx, &names, &sh.graph, None).map_err(|w| w.blocking_tx_id)
+        } else {
+            sh.lm.try_lock(tx, &names)
+        };
+        sh.progress.fetch_add(1, Ordering::SeqCst);
+        match res {
+            Ok(h) => {
+                log.c("takeover_grants");
+                for &k in &keys {
+                    let mut s = sh.shadow[k].lock();
+                    if let Some(p) = *s {
+                        if p != tx {
+                            // p's mark was set after its grant (or planted with a 1 h lease) and p's
+                            // release has not begun
+                            sh.bad(
+                                "takeover:two-unexpired-holders-of-one-key",
+                                format!("tx {} was granted {:?} (handle {}) while tx {} holds {} (1 h lease, not released)", tx, names, h, p, kname(k)),
+                            );
+                        }
+                    }
+                    *s = Some(tx);
+                    drop(s);
+                    won.push((k, th as u8));
+                }
+                for &k in &keys {
+                    let hol = sh.lm.lock_holder(&kname(k));
+                    log.c("takeover_holder_reads_checked");
+                    if hol != Some(tx) {
+                        sh.bad(
+                            "takeover:granted-key-not-held-by-grantee",
+                            format!("tx {} was granted {:?} (handle {}, 1 h lease) and has not released anything, but lock_holder({}) = {:?}", tx, names, h, kname(k), hol),
+                        );
+                    }
+                }
+                backlog.push((tx, h, keys, tracked));
+            }
+            Err(b) => {
+                log.c("takeover_refusals");
+                if b == tx {
+                    sh.bad("takeover:refusal-names-the-requester", format!("tx {} refused on {:?} naming itself as the blocker", tx, names));
+                }
+                if sh.dead.contains(&b) {
+                    sh.bad(
+                        "takeover:refused-because-of-a-lock-whose-lease-ran-out",
+                        format!("tx {} was refused on {:?} naming tx {} as the holder, but every lease of tx {} ran out 100 leases ago", tx, names, b, b),
+                    );
+                }
+                for &k in &keys {
+                    if sh.lm.lock_holder(&kname(k)) == Some(tx) {
+                        sh.bad("takeover:partial-grant-on-refusal", format!("tx {} was refused on {:?} but holds {}", tx, names, kname(k)));
+                    }
+                }
+                if tracked {
+                    // the refused transaction gives up (abort): nothing was granted, so no handle can
+                    // carry the wait cleanup
+                    sh.graph.remove_transaction(tx);
+                }
+            }
+        }
+        if !backlog.is_empty() && rng.chance(p_release, 100) {
+            let j = rng.below(backlog.len());
+            let t = backlog.swap_remove(j);
+            tk_finish(sh, &t, rng.below(3), log);
+        }
+        if rng.chance(1, 8) {
+            std::thread::yield_now();
+        }
+    }
+    sh.takers_done.fetch_add(1, Ordering::SeqCst);
+    (backlog, won)
+}
+
+/// the expiry sweeps and the late completions of the old transactions. `kind` 0 begins with a sweep.
+fn tk_maint(sh: &TkShared, seed: u64, kind: u8, log: &mut ThreadLog) -> Vec<u64> {
+    let mut rng = Rng::new(seed);
+    let mut swept: Vec<u64> = Vec::new();
+    // begin somewhere inside the takers' walks (a scheduling aid, not a deadline)
+    let threshold = rng.below((sh.approx_requests * 3 / 4 + 1) as usize) as u64;
+    let mut spins = 0u64;
+    while sh.progress.load(Ordering::Relaxed) < threshold && sh.takers_done.load(Ordering::Relaxed) < sh.ntakers && !sh.stop.load(Ordering::Relaxed) {
+        spins += 1;
+        if spins % 64 == 0 {
+            std::thread::yield_now();
+        } else {
+            std::hint::spin_loop();
+        }
+    }
+    let nops = 1 + rng.below(4);
+    for op in 0..nops {
+        if sh.stop.load(Ordering::Relaxed) {
+            break;
+        }
+        let what = if op == 0 && kind == 0 { rng.below(2) } else { rng.below(7) };
+        match what {
+            0 | 1 => {
+                let p0 = sh.progress.load(Ordering::SeqCst);
+                let d0 = sh.takers_done.load(Ordering::SeqCst);
+                let n = if what == 0 { sh.lm.cleanup_expired() } else { sh.lm.cleanup_expired_with_wait_cleanup(&sh.graph) };
+                let p1 = sh.progress.load(Ordering::SeqCst);
+                log.c("takeover_sweeps");
+                swept.push(n as u64);
+                if n > 0 {
+                    log.c("takeover_sweeps_that_removed_locks");
+                    if p0 > 0 && d0 < sh.ntakers {
+                        log.c("takeover_sweeps_removing_locks_amid_requests");
+                    }
+                    if p1 > p0 {
+                        log.c("takeover_sweeps_removing_locks_overlapped_by_requests");
+                    }
+                }
+            }
+            2 | 3 | 4 => {
+                // a transaction from before the downtime is completed now (late COMMIT / ABORT, or
+                // the coordinator's timeout handling): whatever it still holds goes, nothing else
+                let t = sh.old_pool.lock().pop();
+                if let Some((tx, handles, keys, live)) = t {
+                    if live {
+                        sh.unmark(tx, &keys);
+                        log.c("takeover_completions_of_live_old_transactions");
+                    } else {
+                        log.c("takeover_late_completions_of_expired_transactions");
+                    }
+                    match what {
+                        2 => sh.lm.release(tx),
+                        3 => {
+                            for h in handles {
+                                sh.lm.release_by_handle(h);
+                            }
+                        }
+                        _ => {
+                            for h in handles {
+                                sh.lm.release_by_handle_with_wait_cleanup(h, &sh.graph);
+                            }
+                        }
+                    }
+                    for &k in &keys {
+                        if sh.lm.lock_holder(&kname(k)) == Some(tx) {
+                            sh.bad("takeover:lock-held-after-release", format!("old tx {} was completed (way {}) but lock_holder({}) still names it", tx, what, kname(k)));
+                        }
+                    }
+                    let kft = sh.lm.keys_for_transaction(tx);
+                    if !kft.is_empty() {
+                        sh.bad("takeover:keys_for_transaction-nonempty-after-release", format!("old tx {} was completed (way {}) but keys_for_transaction = {:?}", tx, what, kft));
+                    }
+                }
+            }
+            5 => {
+                let _ = sh.lm.to_serializable();
+                let _ = sh.lm.active_lock_count();
+            }
+            _ => {
+                let _ = sh.graph.detect_cycles();
+            }
+        }
+        match rng.below(3) {
+            0 => std::thread::yield_now(),
+            1 => {
+                for _ in 0..rng.below(400) {
+                    std::hint::spin_loop();
+                }
+            }
+            _ => {}
+        }
+    }
+    swept
+}
+
+/// one lock table as a restarted node loads it, raced once. Returns (hash, sweep amid take-overs?, refusals)
+fn takeover_round(rng: &mut Rng, round: usize, big: bool, r: &mut Report) -> Result<(u64, bool, u64), Fail> {
+    let nkeys = if big { 64 + rng.below(193) } else { 8 + rng.below(89) };
+    let ntakers = 1 + rng.below(4);
+    let nmaint = 1 + rng.below(2);
+    let p_release = [0u32, 0, 10, 30][rng.below(4)];
+    let mode = rng.below(3) as u8;
+    let p_expired = [70u32, 85, 100][rng.below(3)];
+    let n_dead = 1 + rng.below(7) as u64;
+    let n_live = 1 + rng.below(3) as u64;
+    let now = now_ms();
+    let handle0 = u64::MAX / 2 + ((round as u64) << 20); // never produced by the repo's handle counter in a run
+    let mut locks = std::collections::HashMap::new();
+    let mut tx_locks: std::collections::HashMap<u64, Vec<String>> = std::collections::HashMap::new();
+    let mut old: BTreeMap<u64, (BTreeSet<u64>, Vec<usize>, bool)> = BTreeMap::new();
+    let mut marks: Vec<Option<u64>> = vec![None; nkeys];
+    let mut planted_expired = 0u64;
+    for k in 0..nkeys {
+        let roll = rng.below(100) as u32;
+        let (tx, live) = if roll < p_expired {
+            (1_000 + rng.below(n_dead as usize) as u64, false)
+        } else if roll < p_expired + 12 {
+            (2_000 + rng.below(n_live as usize) as u64, true)
+        } else {
+            continue;
+        };
+        let handle = handle0 + tx * 4 + rng.below(2) as u64;
+        let lease = if live { TK_LEASE_MS } else { 1_000 + rng.below(9_000) as u64 };
+        let acquired = if live { now } else { now.saturating_sub(100 * lease + 1_000) };
+        locks.insert(kname(k), KeyLock { key: kname(k), tx_id: tx, lock_handle: handle, acquired_at_ms: acquired, timeout_ms: lease });
+        tx_locks.entry(tx).or_default().push(kname(k));
+        let e = old.entry(tx).or_insert_with(|| (BTreeSet::new(), Vec::new(), live));
+        e.0.insert(handle);
+        e.1.push(k);
+        if live {
+            marks[k] = Some(tx);
+        } else {
+            planted_expired += 1;
+        }
+    }
+    let state = SerializableLockState::new(locks, tx_locks, TK_LEASE_MS);
+    let lm = if rng.bool() {
+        LockManager::from_serializable(state)
+    } else {
+        match bitcode::serialize(&state).ok().and_then(|b| bitcode::deserialize::<SerializableLockState>(&b).ok()) {
+            Some(s) => LockManager::from_serializable(s),
+            None => LockManager::from_serializable(state),
+        }
+    };
+    let mut pool: Vec<(u64, Vec<u64>, Vec<usize>, bool)> = old.iter().map(|(&tx, (hs, ks, live))| (tx, hs.iter().copied().collect(), ks.clone(), *live)).collect();
+    rng.shuffle(&mut pool);
+    let sh = TkShared {
+        lm,
+        graph: WaitForGraph::new(),
+        shadow: marks.iter().map(|m| Mutex::new(*m)).collect(),
+        progress: AtomicU64::new(0),
+        takers_done: AtomicU64::new(0),
+        ntakers: ntakers as u64,
+        approx_requests: (ntakers * nkeys * 5 / 8) as u64,
+        stop: AtomicBool::new(false),
+        fails: Mutex::new(Vec::new()),
+        dead: old.iter().filter(|(_, v)| !v.2).map(|(&t, _)| t).collect(),
+        old_pool: Mutex::new(pool),
+    };
+    let t_round = Instant::now();
+    let barrier = Barrier::new(ntakers + nmaint);
+    let seeds: Vec<u64> = (0..ntakers + nmaint).map(|_| rng.next_u64()).collect();
+    let mut logs: Vec<ThreadLog> = Vec::new();
+    let mut backlog: Vec<TkHeld> = Vec::new();
+    let mut won: Vec<(usize, u8)> = Vec::new();
+    let mut swept: Vec<u64> = Vec::new();
+    std::thread::scope(|s| {
+        let mut hs = Vec::new();
+        for th in 0..ntakers {
+            let (sh, barrier, seed) = (&sh, &barrier, seeds[th]);
+            hs.push(s.spawn(move || {
+                let mut log = ThreadLog::default();
+                barrier.wait();
+                let out = tk_taker(sh, th, seed, round, nkeys, p_release, mode, &mut log);
+                (log, out)
+            }));
+        }
+        let mut ms = Vec::new();
+        for m in 0..nmaint {
+            let (sh, barrier, seed) = (&sh, &barrier, seeds[ntakers + m]);
+            ms.push(s.spawn(move || {
+                let mut log = ThreadLog::default();
+                barrier.wait();
+                let out = tk_maint(sh, seed, m as u8, &mut log);
+                (log, out)
+            }));
+        }
+        for h in hs {
+            match h.join() {
+                Ok((l, (b, w))) => {
+                    logs.push(l);
+                    backlog.extend(b);
+                    won.extend(w);
+                }
+                Err(e) => {
+                    // let the maintenance threads go
+                    sh.takers_done.fetch_add(1, Ordering::SeqCst);
+                    sh.bad("panic:taker-thread", panic_msg(&e))
+                }
+            }
+        }
+        for h in ms {
+            match h.join() {
+                Ok((l, sw)) => {
+                    logs.push(l);
+                    swept.extend(sw);
+                }
+                Err(e) => sh.bad("panic:maintenance-thread", panic_msg(&e)),
+            }
+        }
+    });
+    let ctx = format!("[takers {}, maintenance threads {}, keys {}, planted: {} expired locks of {} transactions, release {} %, mode {}]", ntakers, nmaint, nkeys, planted_expired, sh.dead.len(), p_release, mode);
+    if t_round.elapsed() > TK_FRESH {
+        r.inconclusive("takeover-threads: a round took longer than 300 s (1 h leases): not judged");
+        return Ok((0, false, 0));
+    }
+    let mut fails = std::mem::take(&mut *sh.fails.lock());
+    if !fails.is_empty() {
+        let f = fails.remove(0);
+        return fail(f.sig, format!("{} {}", f.detail, ctx));
+    }
+    // ---- quiescence: every key is held by exactly the transaction that was granted it and has not
+    // released it, and by nobody otherwise
+    let mut log = ThreadLog::default();
+    for k in 0..nkeys {
+        let m = *sh.shadow[k].lock();
+        let hol = sh.lm.lock_holder(&kname(k));
+        r.count("takeover_quiescent_keys_checked", 1);
+        match (m, hol) {
+            (Some(o), h) if h != Some(o) => {
+                return fail(
+                    "takeover:granted-key-not-held-by-grantee",
+                    format!("at quiescence tx {} holds {} (granted with a 1 h lease, never released) but lock_holder({}) = {:?} {}", o, kname(k), kname(k), h, ctx),
+                );
+            }
+            (None, Some(x)) => {
+                let sig = if sh.dead.contains(&x) { "takeover:lock-whose-lease-ran-out-reported-as-held" } else { "takeover:lock-held-by-finished-transaction" };
+                return fail(sig, format!("at quiescence nobody holds {} but lock_holder({}) = Some({}) {}", kname(k), kname(k), x, ctx));
+            }
+            _ => {}
+        }
+    }
+    for t in &backlog {
+        let kft = sh.lm.keys_for_transaction(t.0);
+        for &k in &t.2 {
+            if !kft.contains(&kname(k)) {
+                return fail("takeover:held-key-missing-from-keys_for_transaction", format!("tx {} holds {} (lock_holder agrees) but keys_for_transaction({}) = {:?} {}", t.0, kname(k), t.0, kft, ctx));
+            }
+        }
+    }
+    // ---- everybody completes; the transactions from before the downtime time out (sweep)
+    let mut all_tx: Vec<u64> = old.keys().copied().collect();
+    for (i, t) in backlog.iter().enumerate() {
+        tk_finish(&sh, t, i, &mut log);
+        all_tx.push(t.0);
+    }
+    let rest: Vec<_> = std::mem::take(&mut *sh.old_pool.lock());
+    for (tx, handles, keys, live) in rest {
+        if live {
+            sh.unmark(tx, &keys);
+            if tx % 2 == 0 {
+                sh.lm.release(tx);
+            } else {
+                for h in handles {
+                    sh.lm.release_by_handle_with_wait_cleanup(h, &sh.graph);
+                }
+            }
+        }
+    }
+    let last = sh.lm.cleanup_expired_with_wait_cleanup(&sh.graph) as u64;
+    let mut fails = std::mem::take(&mut *sh.fails.lock());
+    if !fails.is_empty() {
+        let f = fails.remove(0);
+        return fail(f.sig, format!("{} {}", f.detail, ctx));
+    }
+    let raw = sh.lm.to_serializable();
+    if let Some((k, l)) = raw.locks().iter().next() {
+        return fail("takeover:lock-left-behind-at-quiescence", format!("every transaction was completed or timed out (and was swept) but {} is still locked by tx {} {}", k, l.tx_id, ctx));
+    }
+    for tx in all_tx {
+        let kft = sh.lm.keys_for_transaction(tx);
+        if !kft.is_empty() {
+            return fail("takeover:keys_for_transaction-nonempty-after-release", format!("tx {} was completed / timed out and swept but keys_for_transaction = {:?} {}", tx, kft, ctx));
+        }
+    }
+    // ---- evidence
+    logs.push(log);
+    let (mut refusals, mut amid) = (0u64, false);
+    for l in logs {
+        for (k, v) in l.counters {
+            r.count(k, v);
+            if k == "takeover_refusals" {
+                refusals += v;
+            }
+            if k == "takeover_sweeps_removing_locks_amid_requests" {
+                amid = true;
+            }
+        }
+    }
+    r.count("takeover_rounds", 1);
+    r.count("takeover_expired_locks_planted", planted_expired);
+    r.count("takeover_expired_locks_swept", swept.iter().sum::<u64>() + last);
+    r.count("takeover_grants_kept_to_quiescence", backlog.iter().map(|t| t.2.len() as u64).sum());
+    r.count_max("max:takeover_threads", (ntakers + nmaint) as u64);
+    won.sort();
+    let mut h = hash_combine(0x7a6b, nkeys as u64);
+    for (k, th) in &won {
+        h = hash_combine(h, (*k as u64) << 8 | *th as u64);
+    }
+    for n in &swept {
+        h = hash_combine(h, *n);
+    }
+    if r.want_sample() && amid && refusals > 0 {
+        r.sample(json!({"part": "takeover-threads", "takers": ntakers, "maintenance_threads": nmaint, "keys": nkeys, "expired_locks_planted": planted_expired,
+            "sweep_results": swept, "grants(key<-taker)": won.iter().take(16).map(|(k, t)| format!("{}<-t{}", kname(*k), t)).collect::<Vec<_>>(), "refusals": refusals}));
+    }
+    Ok((h, amid, refusals))
+}
+
+fn takeover_inner(case_seed: u64, big: bool, r: &mut Report) -> Result<(u64, bool), Fail> {
+    let mut rng = Rng::new(case_seed);
+    let rounds = 6 + rng.below(10);
+    let (mut h, mut amid, mut refusals) = (11u64, false, 0u64);
+    for round in 0..rounds {
+        let (rh, ra, rr) = takeover_round(&mut rng, round, big, r)?;
+        h = hash_combine(h, rh);
+        amid |= ra;
+        refusals += rr;
+    }
+    Ok((h, amid && refusals > 0))
+}
+
+fn takeover_case(case_seed: u64, big: bool, r: &mut Report) -> bool {
+    match takeover_inner(case_seed, big, r) {
+        Ok((h, nt)) => {
+            r.eval(h, nt);
+            r.count("takeover_cases", 1);
+            true
+        }
+        Err(f) => {
+            r.violation(f.sig, f.detail, json!({"part": "takeover-threads", "case_seed": case_seed, "big": big}));
+            false
+        }
+    }
+}
+
+// ------------------------------------------------------------------------------------------------
 // witness: the two minimal programs behind the findings of this check (`--part witness`, not part
 // of a normal run; prints what the real code answers)
 // ------------------------------------------------------------------------------------------------
@@ -3247,7 +3799,7 @@ fn main() {
         // hash-map iteration order (graphs) and thread schedules are not functions of the seed:
         // repeat the case until it fails again (bounded)
         let tries = match rp["part"].as_str().unwrap_or("") {
-            "threads" | "coord-threads" => 40,
+            "threads" | "coord-threads" | "takeover-threads" => 40,
             "graph4" | "graphN" | "graph-prog" => 60,
             _ => 3,
         };
@@ -3263,6 +3815,7 @@ fn main() {
                 "participant" => participant_case(s, false, &mut total),
                 "participant-lease" => participant_case(s, true, &mut total),
                 "coord-threads" => coord_threads_case(s, &mut total),
+                "takeover-threads" => takeover_case(s, rp["big"].as_bool().unwrap_or(false), &mut total),
                 other => {
                     total.inconclusive(&format!("unknown replay part {:?}", other));
                     true
@@ -3357,6 +3910,17 @@ fn main() {
             rep.samples.truncate(2);
             total.merge(rep);
         }
+        if want("takeover-threads") {
+            // every round spawns 2-6 OS threads of its own
+            let outer = (th / 3).max(1);
+            let n = args.by_tier(400u64, 40_000u64);
+            let big = !args.quick();
+            let mut rep = par_cases(outer, args.seed ^ 0xaa, n, args.budget(12, 150), |i, s, r| {
+                takeover_case(s, big && i % 3 == 0, r);
+            });
+            rep.samples.truncate(2);
+            total.merge(rep);
+        }
         if want("threads") {
             // every case spawns 3-7 OS threads of its own
             let outer = (th / 3).max(1);
@@ -3438,6 +4002,15 @@ fn main() {
             floors.push(("cthread_pending_lock_checks", 2_000));
             floors.push(("cthread_orphans_swept_checked", 50));
         }
+        if want("takeover-threads") {
+            floors.push(("takeover_cases", 20));
+            floors.push(("takeover_grants", 5_000));
+            floors.push(("takeover_refusals", 1_000));
+            floors.push(("takeover_sweeps_removing_locks_amid_requests", 100));
+            floors.push(("takeover_sweeps_removing_locks_overlapped_by_requests", 30));
+            floors.push(("takeover_late_completions_of_expired_transactions", 50));
+            floors.push(("takeover_holder_reads_checked", 5_000));
+        }
         if want("threads") {
             floors.push(("thread_cases", 10));
             floors.push(("thread_grants", 1_000));
@@ -3446,7 +4019,7 @@ fn main() {
     }
     let meta = Meta {
         property: "C12",
-        rule: "graph cases are distinct by edge set (non-trivial: >= 1 edge for the exhaustive 4-transaction family, >= 2 edges otherwise); lock / coordinator programs are distinct by the hash of their executed call trace and non-trivial if at least one request was refused because of a held key; participant programs likewise (non-trivial: at least one PREPARE refused because of a held key and at least one completion); participant-lease / coord-lease programs likewise, non-trivial only if in addition a retransmitted PREPARE met a key whose lease had run out for the transaction (counters participant_lease_* / coord_lease_* are those of the lease parts alone); threaded cases are distinct by the hash of the global event order (thread, call kind, granted?) and non-trivial if at least one request was refused (coord-threads: and at least one orphan sweep ran). graph4 is exhaustive: all 4 096 digraphs on 4 transactions x 3 (thorough: 12) labelings/insertion orders x (1 bare WaitForGraph + 5 detector configurations).",
+        rule: "graph cases are distinct by edge set (non-trivial: >= 1 edge for the exhaustive 4-transaction family, >= 2 edges otherwise); lock / coordinator programs are distinct by the hash of their executed call trace and non-trivial if at least one request was refused because of a held key; participant programs likewise (non-trivial: at least one PREPARE refused because of a held key and at least one completion); participant-lease / coord-lease programs likewise, non-trivial only if in addition a retransmitted PREPARE met a key whose lease had run out for the transaction (counters participant_lease_* / coord_lease_* are those of the lease parts alone); threaded cases are distinct by the hash of the global event order (thread, call kind, granted?) and non-trivial if at least one request was refused (coord-threads: and at least one orphan sweep ran); takeover-threads cases (6-15 restored lock tables, each raced once) are distinct by the hash of who was granted which key and what every sweep removed, non-trivial if a request was refused and a sweep that removed locks began after the first request was answered and before the last taker finished. graph4 is exhaustive: all 4 096 digraphs on 4 transactions x 3 (thorough: 12) labelings/insertion orders x (1 bare WaitForGraph + 5 detector configurations).",
         assumptions: vec![
             "the recorded wait-for relation is the set of add_wait calls made minus those removed; self-waits are not recorded (add_wait documents them as invalid)".into(),
             "'reports a cycle exactly when' is judged as existence (some cycle reported <=> the reference finds a non-trivial SCC); every reported cycle must be a simple cycle of recorded edges and the victim one of its members; max_cycle_length is set to 64 (> 8)".into(),
@@ -3459,6 +4032,7 @@ fn main() {
             "participant: the requested key set of a PREPARE is the set of stored entries its operations write (Transaction::storage_key); a prepared transaction has timed out when cleanup_stale / recover says so, and in any case when its latest PREPARE was answered more than the timeout before the sweep began (harness clock), whether or not the sweep lists it".into(),
             "participant-lease / coord-lease: a key lock holds as long as its lease (LockManager::default_timeout at the grant) runs; the prepared / pending entry of a transaction may outlive its locks. Leases run out by a downtime (the persisted lock table comes back with the chosen locks 100 leases + 1 s older, everything else as saved) or, at the participant, in real time (25 ms leases, 40 ms naps); status is derived from the harness' clock readings around every grant, undecidable windows are not judged (participant_lease_ambiguous_lease_windows_skipped). A retransmitted PREPARE answered YES while the key was still held may or may not renew the lease (both grants stay candidates); answered YES after the lease ran out it must be a fresh grant (the key is held by the requester right after). A PREPARE refused although the only other locks on its keys had run out for certain is reported (participant:prepare-refused-because-of-expired-lock), as locks-seq does for try_lock".into(),
             "coord-threads: requests carry zero deltas (the semantic stage never refuses, so nothing but a completion may drop a pending transaction's locks); prepare timeout 1 h and 30 s lock lease against cases of milliseconds (a lock older than 8 s is not judged: inconclusive); release_orphaned_locks never overlaps commit / abort / complete_abort / cleanup_timeouts (harness gate: the two sides take `pending` and the lock tables in opposite orders), it overlaps begin / handle_prepare / record_vote and the observers".into(),
+            "takeover-threads: the old locks are planted through SerializableLockState::new + LockManager::from_serializable (what load_from_store does after a downtime): leases of 1-10 s that began 100 leases + 1 s ago (definitely run out) or 1 h leases that began now; every new grant has a 1 h lease (default_timeout of the restored state) and a round lasts milliseconds (older than 300 s: inconclusive), so 'unexpired' is never in doubt. One request = one new transaction. The shadow mark is set after the grant returned and cleared before the release call, so two marks on one key imply two unexpired, unreleased holders. The maintenance threads' start is steered by a progress counter; counters takeover_sweeps_removing_locks_amid_requests / _overlapped_by_requests (requests were answered before / during a sweep that removed locks) are evidence, never verdicts".into(),
         ],
         floors,
         exhaustive,
